@@ -406,8 +406,12 @@ def libm_f64(name, x):
             c.facts.append(ir.bor(ir.bnot(ir.fcmp('fp.lt', n, one)), ir.bor(ir.fcmp('fp.lt', r, zero), rn)))
             c.facts.append(ir.bor(ir.bnot(ir.fcmp('fp.eq', n, one)), ir.fpred('fp.isZero', r)))
             c.facts.append(ir.bor(ir.bnot(ir.fcmp('fp.lt', one, n)), ir.fcmp('fp.lt', zero, r)))
+            # magnitude: |log x| <= 750 for every positive finite double (log(2^-1074) = -744.4, log(DBL_MAX) = 709.8)
+            fin = ir.band(ir.fcmp('fp.lt', zero, n), ir.bnot(ir.fpred('fp.isInfinite', n)))
+            c.facts.append(ir.bor(ir.bnot(fin), ir.band(ir.fcmp('fp.leq', ir.fconst(-750.0), r), ir.fcmp('fp.leq', r, ir.fconst(750.0)))))
+            c.aux.append((r, 'libm_' + name, n))
             c.notes.append(f'{name}(x) in binary64: fresh value under the C contract (NaN iff x<0 or NaN, '
-                           '-inf iff x==0, +inf iff x==+inf, sign follows x-1); nothing else assumed')
+                           '-inf iff x==0, +inf iff x==+inf, sign follows x-1, |value| <= 750 for positive finite x); nothing else assumed')
         elif name == 'exp':
             c.facts.append(ir.beq(rn, isnan))
             c.facts.append(ir.bor(rn, ir.fcmp('fp.leq', zero, r)))
